@@ -5,6 +5,7 @@ CONSTANTS
   MaxReq = 2
   MaxConn = 3
   MaxFail = 1
+  EagerRelease = FALSE
 CONSTRAINT Bound
 INVARIANT NoViolation
 INVARIANT Structural
